@@ -429,6 +429,11 @@ def getitem(interp, obj, idx, node):
     raise Unsupported(f"getitem on {obj!r}")
 
 
+def _mentions_any(term, names):
+    from .contracts import _mentions
+    return _mentions(term, names)
+
+
 def _known_nonneg(interp, i):
     """the index is certainly not negative (then Python's wrap-around `i + len` plays no role and the array is
     selected at `i` itself, which keeps quantifier patterns simple).  Only an encoding choice: both forms are
@@ -451,15 +456,16 @@ def _known_nonneg(interp, i):
             base = b
         elif z3.is_int_value(b) and b.as_long() >= 0:
             base = a
-    if z3.is_const(base) and base.decl().kind() == z3.Z3_OP_UNINTERPRETED:
+    bound = getattr(interp, "bound_names", None) or set()
+    if z3.is_const(base) and base.decl().kind() == z3.Z3_OP_UNINTERPRETED and base.decl().name() in bound:
         nm = base.decl().name()
-        bound = getattr(interp, "bound_names", None) or set()
-        if nm in bound and nm in QRANGES:
+        if nm in QRANGES:
             lo = QRANGES[nm][0]
             cl = concrete_int(lo)
             res = cl >= 0 if cl is not None else bool(interp.ctx.implied(lo >= 0, 1000))
-        elif nm not in bound:
-            res = bool(interp.ctx.implied(base >= 0, 1000))
+    elif not bound or not _mentions_any(i, bound):
+        # a ground term: ask the path condition
+        res = bool(interp.ctx.implied(i >= 0, 1000))
     cache[key] = res
     return res
 
@@ -1668,8 +1674,15 @@ def _any_all(is_any):
     return f
 
 
+_SUM = z3.Function("py_sum", z3.ArraySort(IntS, IntS), IntS, IntS)
+
+
 def _sum(it, a, k, n):
-    items = it.concrete_items(it.need(a[0]), n)
+    v0 = it.need(a[0])
+    if isinstance(v0, VList) and not v0.concrete and v0.shape == "int" and len(a) == 1:
+        # sum of a symbolic list of ints: an uninterpreted function of (elements, length); only congruence is used
+        return VInt(_SUM(v0.arrs[0], v0.length))
+    items = it.concrete_items(v0, n)
     tot = a[1] if len(a) > 1 else VInt(0)
     for x in items:
         tot = binop(it, ast.Add(), tot, it.need(x), n)
